@@ -235,6 +235,18 @@ func (g *c02Gen) block(f *C02Flow, budget *int) string {
 			g.inRepeat = false
 			g.feat["table-footer"] = true
 		}
+		// a second header or footer group is an ordinary row group (CSS 2.1 17.2): laid out once, where it stands
+		extraGroup := ""
+		if rapid.IntRange(0, 5).Draw(t, "extragroup") == 0 {
+			tag := rapid.SampledFrom([]string{"thead", "tfoot"}).Draw(t, "extratag")
+			if (tag == "thead" && g.feat["table-header"]) || (tag == "tfoot" && foot != "") {
+				ef := g.newFlow(false)
+				pop := g.push("table")
+				extraGroup = "<" + tag + "><tr><td>" + g.inline(ef, 2) + "</td></tr></" + tag + ">"
+				pop()
+				g.feat["extra-row-group"] = true
+			}
+		}
 		b.WriteString("<tbody>")
 		nc := rapid.IntRange(1, 3).Draw(t, "ncols")
 		for r, nr := 0, rapid.IntRange(1, 5).Draw(t, "nrows"); r < nr; r++ {
@@ -255,7 +267,7 @@ func (g *c02Gen) block(f *C02Flow, budget *int) string {
 			}
 			b.WriteString("</tr>")
 		}
-		b.WriteString("</tbody>" + foot + "</table>")
+		b.WriteString("</tbody>" + foot + extraGroup + "</table>") // (after the first footer group, which is the footer)
 		return b.String()
 	case kind < 17: // float
 		g.depth++
